@@ -223,10 +223,11 @@ def run(tier, v):
     # pool part: life-cycle machine (quick: 3 shots, thorough: 4), its negative controls, the plan generator
     plans = os.path.join(d, "plans.ndjson")
     pool_exh = "SamplePool_exh%s.cfg" % sfx
-    pool_negs = ["keeps_net", "keeps_sizes", "release_early", "recycles"]
+    # quick: one negative control per mechanism (re-initialisation, release order); thorough: all, and the explanation run
+    pool_negs = ["keeps_net", "keeps_sizes", "release_early", "recycles"] if thorough else ["keeps_net", "release_early"]
     njobs = len(jobs)
     jobs += [(("SamplePoolMC", pool_exh), dict(deadlock=False, workers=4, heap="6g", timeout=1800)),
-             (("SamplePoolMC", "SamplePool_norelease.cfg"), dict(deadlock=False, workers=2, heap="4g", timeout=900)),
+             (("SamplePoolMC", "SamplePool_norelease.cfg" if thorough else "SamplePool_neg_keeps_net.cfg"), dict(deadlock=False, workers=2, heap="4g", timeout=900)),
              (("SamplePoolGen", "SamplePool_gen%s.cfg" % sfx), dict(env={"VERIF_OUT": plans}, workers=1, heap="2g", timeout=600, deadlock=False))]
     jobs += [(("SamplePoolMC", "SamplePool_neg_%s.cfg" % n), dict(deadlock=False, workers=1, heap="2g", timeout=600)) for n in pool_negs]
     res = _par(jobs)
@@ -234,7 +235,8 @@ def run(tier, v):
     res = res[:njobs]
     vlib.tlc_must_pass(pres[0], pool_exh)
     # an aggregator that keeps the samples hides even the forgotten net code: the model says why only a releasing one binds
-    vlib.tlc_must_pass(pres[1], "SamplePool_norelease.cfg")
+    if thorough:
+        vlib.tlc_must_pass(pres[1], "SamplePool_norelease.cfg")
     if pres[2].error or pres[2].violation or not os.path.exists(plans):
         raise vlib.MachineryError("plan generation failed: %s\n%s" % (pres[2].kind, pres[2].out[-3000:]))
     for n, r in zip(pool_negs, pres[3:]):
